@@ -17,8 +17,9 @@
      lists of (node, nbr, eid); a node's slice is the sub-list with that node.
      The order inside a slice is not modelled; binary search in a sorted slice is
      modelled by its result on sorted input (all entries with the key).  The only
-     window in which a slice can be unsorted - stub appends before the next
-     compaction - is tracked by the ghost flag [unsorted].
+     window in which a node's outgoing slice can be unsorted - a stub append to that
+     node's slice before the next compaction - is tracked per node by the ghost set
+     [unsorted]; unsortedness from any other cause is a disagreement in [check_case].
    - HashSet/HashMap-of-HashSet indexes are duplicate-free flat lists of pairs.
    - edge types are interned by an injective table; the model stores the type
      itself and keeps the set of interned types.
@@ -78,7 +79,8 @@ Record estate := {
   fout : list aent;                  (* frozen outgoing segments, concatenated *)
   fin : list aent;                   (* frozen incoming segments, concatenated *)
   fdead : N;                         (* frozen_dead_edges *)
-  unsorted : bool;                   (* ghost: a stub append since the last compaction *)
+  unsorted : list N;                 (* ghost: nodes whose outgoing slice got a stub append since
+                                        the last compaction *)
   tstale : bool                      (* ghost: a stub edge since the last finish_bulk_load *)
 }.
 
@@ -90,7 +92,7 @@ Definition init : state :=
      es := {| endp := fun _ => (0, 0); etype := fun _ => None; eprops := fun _ => None;
               ecols := fun _ => []; next_edge := 1; free_edges := []; tidx := []; interned := [];
               bout := []; bin := []; fout := []; fin := []; fdead := 0;
-              unsorted := false; tstale := false |} |}.
+              unsorted := []; tstale := false |} |}.
 
 (* ---------- results ---------- *)
 Inductive res := ROk (v : N) | RErr (class : N).
@@ -199,7 +201,8 @@ Definition add_edge (s : estate) (hint a b t : N) (ps : props) (stub : bool) : e
       bout := {| a_node := a; a_nbr := b; a_eid := id |} :: bout s;
       bin := {| a_node := b; a_nbr := a; a_eid := id |} :: bin s;
       fout := fout s; fin := fin s; fdead := fdead s;
-      unsorted := unsorted s || stub; tstale := tstale s || stub |}, id).
+      unsorted := if stub then set_add a (unsorted s) else unsorted s;
+      tstale := tstale s || stub |}, id).
 
 Definition create_edge (s : state) (hint a b t : N) (ps : props) (stub : bool) : state * res :=
   if negb (live_n (ns s) a) then (s, RErr E_BAD_SOURCE)
@@ -261,13 +264,13 @@ Definition compact (s : estate) : estate :=
       {| endp := endp s; etype := etype s; eprops := eprops s; ecols := ecols s;
          next_edge := next_edge s; free_edges := free_edges s; tidx := tidx s;
          interned := interned s; bout := []; bin := []; fout := fout s; fin := fin s;
-         fdead := fdead s; unsorted := false; tstale := tstale s |}
+         fdead := fdead s; unsorted := []; tstale := tstale s |}
   | _, _ =>
       {| endp := endp s; etype := etype s; eprops := eprops s; ecols := ecols s;
          next_edge := next_edge s; free_edges := free_edges s; tidx := tidx s;
          interned := interned s; bout := []; bin := [];
          fout := fout s ++ bout s; fin := fin s ++ bin s;
-         fdead := fdead s; unsorted := false; tstale := tstale s |}
+         fdead := fdead s; unsorted := []; tstale := tstale s |}
   end.
 
 Fixpoint range_from (start : N) (len : nat) : list N :=
@@ -568,6 +571,7 @@ Definition dump_edge (s : state) (e : N) : list (list N) :=
 
 Definition dump_between (s : state) (maxn : N) : list (list N) :=
   flat_map (fun a =>
+    if memN a (unsorted (es s)) then [] else
     flat_map (fun b =>
       let r := edges_between s a b None in
       ids_row r ::
@@ -576,12 +580,13 @@ Definition dump_between (s : state) (maxn : N) : list (list N) :=
       | _ => map (fun t => ids_row (edges_between s a b (Some t))) TYPES
       end) (range_from 1 (N.to_nat maxn))) (range_from 1 (N.to_nat maxn)).
 
-(* ids 0..maxn and 0..maxe are dumped; views that need sorted slices / a complete
-   edge-type index are dumped only outside the bulk-load window *)
+(* ids 0..maxn and 0..maxe are dumped; edges_between is dumped for every source node whose
+   slice has had no stub append since the last compaction, edges_by_type only outside the
+   bulk-load window *)
 Definition dump (s : state) (maxn maxe : N) : list (list N) :=
   flat_map (dump_node s) (range (maxn + 1)) ++
   flat_map (dump_edge s) (range (maxe + 1)) ++
-  (if unsorted (es s) then [] else dump_between s maxn) ++
+  dump_between s maxn ++
   map (fun l => ids_row (nodes_by_label s l)) LABELS ++
   (if tstale (es s) then [] else map (fun t => ids_row (edges_by_type s t)) TYPES) ++
   [[node_count s; edge_count s]].
